@@ -27,9 +27,9 @@ CLAUSES = {
         'on histories); the selection functions (affectsLocal / affectsProjected / passesFilter / resolveDomain / others) are '
         'additionally tied by the regenerated complete table EosGen.AffectsTable (real code run on designed worlds: affector '
         'class x filter x domain x argument x affectee class x relation, and the projected twin), proved equal to the spec '
-        'case by case: affects_table_matches_spec_partial, affects_table_matches_spec_projected_partial, '
-        'affects_table_complete; _partial = all rows except domain_group modifiers without group argument (finding AT1: the '
-        'code selects the group-less items there, affects_table_group_none_observed / _disagrees)'),
+        'case by case for every modifier the library\'s own validation (_valid, regenerated per row) accepts: '
+        'affects_table_matches_spec, affects_table_matches_spec_projected, affects_table_incremental_matches_spec (all rows), '
+        'affects_table_complete; rows with rejected modifiers are pinned by affects_table_invalid_rows_observed'),
     'an attribute without base and default value is absent': 'proved (absent_without_base) + correspondence',
 }
 LEVEL_TEXT = ('Lean theorems about the exact-rational calculation function (order independence, operator order, '
@@ -159,21 +159,23 @@ def oracle(ctx):
             rep.violate('value depends on the order of modifications: %r vs %r' % (a, b), {'a': case, 'b': c2})
 
 
-def _selection_check(kind, k, w, snap, aid, tid, m, ids, inc):
+def _selection_check(kind, k, w, snap, aid, tid, m, valid, ids, inc):
     """First item of one table row on which the real code left the Python re-statement of affectsLocal /
     affectsProjected: (case, message) or None.  `ids`: modified in the world built from scratch; `inc`: modified after
-    every item was read and the effect was started / the target set afterwards.  Rows of finding AT1 (domain_group
-    modifier without group argument) are judged on the incremental observation only."""
+    every item was read and the effect was started / the target set afterwards; `valid`: the library's own verdict on
+    the modifier (`_valid`).  A domain_group modifier without group argument that the validation rejects is outside
+    the property's domain: judged on the incremental observation only."""
     from gen import affects_table as AT
     from harness import affects_ref as AR
+    outside = AR.group_none_row(m) and not valid
     for x in snap[1]:
         want = AR.expected(snap, aid, tid, m, x)
         for how, got in (('built from scratch', x[0] in ids), ('effect started after all items were read', x[0] in inc)):
-            if how == 'built from scratch' and AR.group_none_row(m):
+            if how == 'built from scratch' and outside:
                 continue
             if want != got:
-                case = {'affects_table': kind, 'class': k, 'world': w, 'modifier': list(m[:3]), 'affector': aid,
-                        'target': tid, 'item': list(x), 'observation': how, 'selected_by_code': got,
+                case = {'affects_table': kind, 'class': k, 'world': w, 'modifier': list(m[:3]), 'modifier_valid': valid,
+                        'affector': aid, 'target': tid, 'item': list(x), 'observation': how, 'selected_by_code': got,
                         'selected_by_spec': want, 'oracle': 'python re-statement of Eos.World.affects*'}
                 return case, ('designed world (%s table, class %s, world %d, %s): item %r (kind %s, type %d) is %s by '
                               'modifier filter=%d domain=%d arg=%r of item %d, the specification says it is %s'
@@ -190,12 +192,13 @@ def _selection(ctx, rep):
     from harness import affects_ref as AR
     for kind, table in zip('LP', AT.LAST or AT.tables()):
         for (k, w, snap, aid, tid, rows) in table:
-            for m, ids, inc in rows:
-                if AR.group_none_row(m):
-                    rep.dist['selection_rows_AT1_scratch_observation_not_judged'] += 1
+            for m, valid, ids, inc in rows:
+                if AR.group_none_row(m) and not valid:
+                    rep.dist['selection_rows_invalid_group_filter_without_argument'] += 1
+                rep.dist['selection_rows_%s' % ('valid_modifier' if valid else 'modifier_rejected_by_validation')] += 1
                 rep.case(sig=('sel', kind, k, w, m[:3]), kind='selection-table-row')
                 rep.dist['selection_items_%s' % ('local' if kind == 'L' else 'projected')] += len(snap[1])
-                bad = _selection_check(kind, k, w, snap, aid, tid, m, ids, inc)
+                bad = _selection_check(kind, k, w, snap, aid, tid, m, valid, ids, inc)
                 if bad:
                     rep.violate(bad[1], bad[0])
 
@@ -214,9 +217,9 @@ def replay(path):
     if isinstance(case, dict) and 'affects_table' in case:
         from gen import affects_table as AT
         print(json.dumps(v, indent=1)[:3000])
-        snap, aid, tid, m, ids, inc = AT.observe(case['affects_table'], case['class'], case['world'],
-                                                 tuple(case['modifier']))
-        bad = _selection_check(case['affects_table'], case['class'], case['world'], snap, aid, tid, m, ids, inc)
+        snap, aid, tid, m, valid, ids, inc = AT.observe(case['affects_table'], case['class'], case['world'],
+                                                        tuple(case['modifier']))
+        bad = _selection_check(case['affects_table'], case['class'], case['world'], snap, aid, tid, m, valid, ids, inc)
         print('re-executed:', bad[1] if bad else 'the real code agrees with the specification on this world')
         return 1 if bad else 0
     return F.generic_replay(PID, path)
